@@ -269,10 +269,14 @@ def check_adapter(ctx):
                 # truthiness of A[k:] / len(A[k:])
                 size, subj = sized(ce)
                 thr = ((lambda k, size=size: size(k) > 0), c.pol, subj)
-        rows[tuple(args)] = (thr, kws, okshape, p)
+        # (one row per call shape and deciding condition: a second path
+        # with the same arguments but no arity test is a row of its own)
+        rows[(tuple(args), thr is None, len(rows) if thr is None else (
+            thr[1], thr[2]))] = (thr, kws, okshape, p)
     want4 = ('target', 'creds', 'enforcer')
     want5 = ('target', 'creds', 'enforcer', 'current_rule')
-    for args, (thr, kws, okshape, p) in rows.items():
+    shapes = {k[0] for k in rows}
+    for (args, _nothr, _k), (thr, kws, okshape, p) in rows.items():
         if not okshape or kws:
             ctx.ob('C06.ADAPTER', False, W, f.qual, 'call shape %s %s' % (
                 args, kws), 'unrecognised argument passing in the adapter')
@@ -309,7 +313,7 @@ def check_adapter(ctx):
                'whose __call__ has %d parameters would be called with %d '
                'arguments' % (5 if args == want4 else 4, len(args)))
     ctx.count(len(t.paths))
-    ctx.floor('C06.ADAPTER', len(rows), 2, 'adapter call shapes')
+    ctx.floor('C06.ADAPTER', len(shapes), 2, 'adapter call shapes')
 
 
 def check_entry(ctx):
